@@ -17,8 +17,8 @@
 use crate::Obs;
 use icy_engine::editor::{EditState, UndoState};
 use icy_engine::{
-    AddType, AttributedChar, BitFont, Buffer, FontMode, IceMode, Layer, Line, Mode, PaletteMode, Position, Rectangle, SauceData, SauceString, Selection,
-    Size, TextAttribute, TextPane,
+    AddType, AttributedChar, BitFont, Buffer, Color, FontMode, IceMode, Layer, Line, Mode, Palette, PaletteMode, Position, Rectangle, SauceData, SauceString,
+    Selection, Size, TextAttribute, TextPane,
 };
 use std::collections::BTreeMap;
 use std::panic::{catch_unwind, AssertUnwindSafe};
@@ -101,6 +101,8 @@ struct DocSpec {
     cur: usize,
     mirror: bool,
     caret: (i32, i32),
+    fonts: Vec<(usize, usize)>, // extra font slots: (slot, ansi font page)
+    cfp: usize,                 // caret font page
 }
 
 #[derive(Clone, Debug)]
@@ -163,6 +165,14 @@ fn parse(args: &[&str]) -> Result<(DocSpec, Vec<Op>), String> {
                     l.rows.push(row);
                 }
                 d.layers.push(l);
+            }
+            "F" => {
+                d.fonts.push((int(args[i + 1])? as usize, int(args[i + 2])? as usize));
+                i += 3;
+            }
+            "C" => {
+                d.cfp = int(args[i + 1])? as usize;
+                i += 2;
             }
             "P" => {
                 d.cur = int(args[i + 1])? as usize;
@@ -287,12 +297,87 @@ fn build(d: &DocSpec) -> EditState {
         // set_sauce(.., false): store as is
         buf.set_sauce(Some(s), false);
     }
+    for (slot, page) in &d.fonts {
+        if let Ok(f) = BitFont::from_ansi_font_page(*page) {
+            buf.set_font(*slot, f);
+        }
+    }
     let mut st = EditState::from_buffer(buf);
     st.set_current_layer(d.cur);
     st.set_mirror_mode(d.mirror);
     st.get_caret_mut().set_position(Position::new(d.caret.0, d.caret.1));
+    if d.cfp != 0 {
+        st.get_caret_mut().set_font_page(d.cfp);
+    }
     st
 }
+
+/// the SAUCE records of the `sauce k w h` operation (k >= 1); k = 0 in the probe is the record `build` stores
+fn sauce_variant(k: i64, w: i32, h: i32) -> SauceData {
+    let mut s = SauceData::default();
+    if k == 0 {
+        s.title = SauceString::from("title");
+        s.author = SauceString::from("author");
+        s.group = SauceString::from("group");
+        s.comments.push(SauceString::from("a comment"));
+    } else {
+        s.title = SauceString::from(format!("t{k}").as_str());
+        s.author = SauceString::from("someone");
+        if k >= 2 {
+            s.comments.push(SauceString::from("c1"));
+            s.use_letter_spacing = true;
+        }
+        if k >= 3 {
+            s.use_ice = true;
+        }
+    }
+    s.buffer_size = Size::new(w, h);
+    s
+}
+
+/// everything of a SAUCE record but its buffer size, as one number
+fn sauce_rest(s: &SauceData) -> i64 {
+    let t = format!(
+        "{}|{}|{}|{:?}|{:?}|{:?}|{}|{}|{}|{:?}",
+        s.title,
+        s.author,
+        s.group,
+        s.comments.iter().map(|c| c.to_string()).collect::<Vec<_>>(),
+        s.data_type.clone() as u8,
+        s.font_opt,
+        s.use_ice,
+        s.use_letter_spacing,
+        s.use_aspect_ratio,
+        s.sauce_file_type
+    );
+    let mut h = 0xcbf29ce484222325u64;
+    fnv(&mut h, t.as_bytes());
+    (h & 0x3FFF_FFFF) as i64
+}
+
+/// a font as a small number: 1 + k for the font of ANSI font page k, 100 + i for SAUCE font i of the probe, 999 otherwise
+fn font_id(f: &BitFont) -> i64 {
+    use std::sync::OnceLock;
+    static TABLE: OnceLock<Vec<(u64, i64)>> = OnceLock::new();
+    let t = TABLE.get_or_init(|| {
+        let mut v = Vec::new();
+        for k in 0..64usize {
+            if let Ok(f) = BitFont::from_ansi_font_page(k) {
+                v.push((font_hash(&f), 1 + k as i64));
+            }
+        }
+        for (i, n) in SAUCE_NAMES.iter().enumerate() {
+            if let Ok(f) = BitFont::from_sauce_name(n) {
+                v.push((font_hash(&f), 100 + i as i64));
+            }
+        }
+        v
+    });
+    let h = font_hash(f);
+    t.iter().find(|(x, _)| *x == h).map(|(_, id)| *id).unwrap_or(999)
+}
+
+const SAUCE_NAMES: &[&str] = &["IBM VGA", "IBM VGA50"];
 
 // ---------------------------------------------------------------------------------------------
 // operations
@@ -382,6 +467,37 @@ fn apply(st: &mut EditState, op: &Op) -> Result<(), String> {
         "transp" => st.make_layer_transparent(),
         "stampdown" => st.stamp_layer_down(),
         "paste" => st.paste_clipboard_data(&clipboard(ai(0), ai(1), a(2).max(0) as u32, a(3).max(0) as u32, a(4) as u64)),
+        "pastex" => {
+            // explicit cells: x y w h cell*
+            let (w, h) = (a(2).max(0) as u32, a(3).max(0) as u32);
+            let mut data = vec![0u8];
+            data.extend(i32::to_le_bytes(ai(0)));
+            data.extend(i32::to_le_bytes(ai(1)));
+            data.extend(u32::to_le_bytes(w));
+            data.extend(u32::to_le_bytes(h));
+            for k in 0..(w * h) as usize {
+                let c = dec_cell(a(4 + k));
+                data.extend(u16::to_le_bytes(c.ch as u16));
+                data.extend(u16::to_le_bytes(c.attribute.attr));
+                data.extend(u16::to_le_bytes(c.attribute.get_font_page() as u16));
+                data.extend(u32::to_le_bytes(c.attribute.get_background()));
+                data.extend(u32::to_le_bytes(c.attribute.get_foreground()));
+            }
+            st.paste_clipboard_data(&data)
+        }
+        "enumsel" => {
+            let k = a(0) as u32;
+            st.enumerate_selections(move |pos, ch, _sel| {
+                if ch.ch as u32 == k {
+                    Some(true)
+                } else if (pos.x + pos.y) % 3 == 0 {
+                    Some(false)
+                } else {
+                    None
+                }
+            });
+            Ok(())
+        }
         "anchor" => st.anchor_layer(),
         "addfloat" => st.add_floating_layer(),
         "ice" => st.set_ice_mode(match a(0) {
@@ -398,7 +514,12 @@ fn apply(st: &mut EditState, op: &Op) -> Result<(), String> {
         "fontpage" => st.switch_to_font_page(au(0)),
         "setfont" => st.set_ansi_font(au(0)),
         "addfont" => st.add_ansi_font(au(0)),
-        "saucefont" => st.set_sauce_font(if a(0) == 0 { "IBM VGA" } else { "IBM VGA50" }),
+        "saucefont" => st.set_sauce_font(if a(0) == 0 { "IBM VGA" } else if a(0) == 1 { "IBM VGA50" } else { "no such font" }),
+        "pal" => {
+            let cols: Vec<Color> = op.a.iter().map(|c| Color::new((*c >> 16) as u8, (*c >> 8) as u8, *c as u8)).collect();
+            st.switch_to_palette(Palette::from_slice(&cols))
+        }
+        "sauce" => st.update_sauce_data(if a(0) == 0 { None } else { Some(sauce_variant(a(0), ai(1), ai(2))) }),
         "remfont" => st.remove_font(au(0)),
         "fontslot" => st.change_font_slot(au(0), au(1)),
         "replfont" => st.replace_font_usage(au(0), au(1)),
@@ -743,6 +864,69 @@ fn check_history(d: &DocSpec, ops: &[Op], active: &[usize], walk_seed: u64) -> R
     }
 }
 
+/// Which preconditions of the known defect classes hold at the moment an operation of the (minimised) history is applied:
+///   1  scroll_area_up/down on a non-empty area narrower than the layer and ONE row high (the drained row is never re-inserted)
+///   2  scroll_area_up/down on a non-empty area narrower than the layer, two or more rows high
+///   4  resize_buffer / crop / crop_rect while the SAUCE record's size differs from the buffer size
+///   8  add_ansi_font onto a slot that holds a font
+///  16  set_ansi_font / set_sauce_font in FixedSize / Unlimited mode while the caret's slot does not hold the font of slot 0
+///  32  change_font_slot(from, to) with a font in `from`, from != to and a font in `to`
+fn facts(d: &DocSpec, ops: &[Op], idxs: &[usize]) -> i64 {
+    let mut st = build(d);
+    let mut f = 0i64;
+    for &i in idxs {
+        let op = &ops[i];
+        let a = |k: usize| -> i64 { op.a.get(k).copied().unwrap_or(0) };
+        match op.name.as_str() {
+            "scrup" | "scrdown" => {
+                if let Some(layer) = st.get_cur_layer() {
+                    let lr = layer.get_rectangle();
+                    let area = match st.get_selection() {
+                        Some(sel) => sel.as_rectangle().intersect(&lr),
+                        None => lr,
+                    };
+                    if !area.is_empty() && area.get_width() < layer.get_width() {
+                        f |= if area.get_height() == 1 { 1 } else { 2 };
+                    }
+                }
+            }
+            "resize" | "crop" | "croprect" => {
+                let b = st.get_buffer();
+                if let Some(s) = b.get_sauce() {
+                    if s.buffer_size != b.get_size() {
+                        f |= 4;
+                    }
+                }
+            }
+            "addfont" => {
+                if st.get_buffer().has_font(a(0).max(0) as usize) {
+                    f |= 8;
+                }
+            }
+            "setfont" | "saucefont" => {
+                let b = st.get_buffer();
+                if matches!(b.font_mode, FontMode::FixedSize | FontMode::Unlimited) {
+                    let h0 = b.get_font(0).map(font_hash);
+                    let hc = b.get_font(st.get_caret().get_font_page()).map(font_hash);
+                    if h0 != hc {
+                        f |= 16;
+                    }
+                }
+            }
+            "fontslot" => {
+                let (from, to) = (a(0).max(0) as usize, a(1).max(0) as usize);
+                let b = st.get_buffer();
+                if from != to && b.has_font(from) && b.has_font(to) {
+                    f |= 32;
+                }
+            }
+            _ => {}
+        }
+        let _ = apply_caught(&mut st, op);
+    }
+    f
+}
+
 fn same_class(a: &Failure, b: &Failure) -> bool {
     let cat = |f: &Failure| f.detail.first().copied().unwrap_or(0);
     a.code == b.code && (!(matches!(a.code, 3 | 6 | 9 | 10)) || cat(a) == cat(b))
@@ -781,6 +965,9 @@ fn hist(args: &[&str]) -> Obs {
             let mut v = vec![curf.code, curf.step, cur.len() as i64];
             v.extend(cur.iter().map(|x| *x as i64));
             v.extend(curf.detail.iter());
+            // the preconditions of the known defect classes, evaluated on the minimised history (see `facts`)
+            v.push(-777);
+            v.push(facts(&d, &ops, &cur));
             Ok(v)
         }
     }
@@ -862,18 +1049,18 @@ fn trace(args: &[&str]) -> Obs {
     Ok(out)
 }
 
-/// flip maps of the default font, read back through flip_x / flip_y on a 256 x 2 layer holding every code
-fn flip_probe() -> Obs {
+/// flip maps of a font, read back through flip_x / flip_y on a 512 x 2 layer holding every code (the font sits in slot 0)
+fn flip_probe_font(font: Option<BitFont>) -> Obs {
     let mut out = Vec::new();
     for vertical in [false, true] {
-        let mut st = EditState::from_buffer(Buffer::new((512, 2)));
+        let mut buf = Buffer::new((512, 2));
+        if let Some(f) = &font {
+            buf.set_font(0, f.clone());
+        }
+        let mut st = EditState::from_buffer(buf);
         for c in 0..256u32 {
             let ch = AttributedChar::new(char::from_u32(c).unwrap(), TextAttribute::new(7, 1));
-            if vertical {
-                st.get_buffer_mut().layers[0].set_char((c as i32, 0), ch);
-            } else {
-                st.get_buffer_mut().layers[0].set_char((c as i32, 0), ch);
-            }
+            st.get_buffer_mut().layers[0].set_char((c as i32, 0), ch);
         }
         if vertical {
             st.flip_y().map_err(|e| e.to_string())?;
@@ -888,11 +1075,163 @@ fn flip_probe() -> Obs {
     Ok(out)
 }
 
+fn flip_probe() -> Obs {
+    flip_probe_font(None)
+}
+
+/// `c08flipf k`: k < 100 the font of ANSI page k, otherwise SAUCE font k - 100; output: font id, then the two maps
+fn flip_probe_sel(args: &[&str]) -> Obs {
+    let k: usize = args.first().and_then(|s| s.parse().ok()).ok_or("bad-font")?;
+    let f = if k < 100 { BitFont::from_ansi_font_page(k) } else { BitFont::from_sauce_name(SAUCE_NAMES.get(k - 100).copied().unwrap_or("?")) };
+    let f = f.map_err(|e| e.to_string())?;
+    let mut out = vec![font_id(&f)];
+    out.extend(flip_probe_font(Some(f))?);
+    Ok(out)
+}
+
+// ---------------------------------------------------------------------------------------------
+// stage C, full document: raw_obs followed by
+//   ice palmode fontmode caret_font_page  npal rgb*  nfonts (slot id)*  (0 | 1 w h rest)  (0 | 1 ax ay lx ly addtype)  mask_row* (one per buffer row)
+fn xraw_obs(st: &EditState, out: &mut Vec<i64>) {
+    raw_obs(st, 0, out);
+    let b = st.get_buffer();
+    out.push(match b.ice_mode {
+        IceMode::Unlimited => 0,
+        IceMode::Blink => 1,
+        IceMode::Ice => 2,
+    });
+    out.push(match b.palette_mode {
+        PaletteMode::RGB => 0,
+        PaletteMode::Fixed16 => 1,
+        PaletteMode::Free8 => 2,
+        PaletteMode::Free16 => 3,
+    });
+    out.push(match b.font_mode {
+        FontMode::Sauce => 0,
+        FontMode::Single => 1,
+        FontMode::FixedSize => 2,
+        FontMode::Unlimited => 3,
+    });
+    out.push(st.get_caret().get_font_page() as i64);
+    out.push(b.palette.len() as i64);
+    for c in b.palette.color_iter() {
+        let (r, g, bb) = c.get_rgb();
+        out.push(((r as i64) << 16) | ((g as i64) << 8) | bb as i64);
+    }
+    let mut fonts: Vec<(usize, i64)> = b.font_iter().map(|(k, f)| (*k, font_id(f))).collect();
+    fonts.sort();
+    out.push(fonts.len() as i64);
+    for (k, id) in fonts {
+        out.push(k as i64);
+        out.push(id);
+    }
+    match b.get_sauce() {
+        None => out.push(0),
+        Some(s) => {
+            out.push(1);
+            out.push(s.buffer_size.width as i64);
+            out.push(s.buffer_size.height as i64);
+            out.push(sauce_rest(s));
+        }
+    }
+    match st.get_selection() {
+        None => out.push(0),
+        Some(s) => {
+            out.push(1);
+            out.push(s.anchor.x as i64);
+            out.push(s.anchor.y as i64);
+            out.push(s.lead.x as i64);
+            out.push(s.lead.y as i64);
+            out.push(match s.add_type {
+                AddType::Default => 0,
+                AddType::Add => 1,
+                AddType::Subtract => 2,
+            });
+        }
+    }
+    let (w, h) = (b.get_width().clamp(0, 60), b.get_height().clamp(0, 200));
+    for y in 0..h {
+        let mut row = 0i64;
+        for x in 0..w {
+            if st.get_is_mask_selected((x, y)) {
+                row |= 1 << x;
+            }
+        }
+        out.push(row);
+    }
+}
+
+fn xtrace(args: &[&str]) -> Obs {
+    let (d, ops) = parse(args)?;
+    let mut st = build(&d);
+    let mut out = Vec::new();
+    xraw_obs(&st, &mut out);
+    for op in &ops {
+        let rc = match op.name.as_str() {
+            "U" => undo_caught(&mut st),
+            "R" => redo_caught(&mut st),
+            _ => apply_caught(&mut st, op),
+        };
+        if rc != 0 {
+            out.push(rc);
+            return Ok(out);
+        }
+        xraw_obs(&st, &mut out);
+    }
+    Ok(out)
+}
+
+/// what the model takes as parameters: DOS_DEFAULT_PALETTE (16 rgb), the font of ANSI page 0..63 (0 = unsupported), the two SAUCE fonts,
+/// the `rest` numbers of the SAUCE records 0..=3 and of record 0 with use_ice
+fn probe() -> Obs {
+    let mut out = Vec::new();
+    let b = Buffer::new((1, 1));
+    for c in b.palette.color_iter() {
+        let (r, g, bb) = c.get_rgb();
+        out.push(((r as i64) << 16) | ((g as i64) << 8) | bb as i64);
+    }
+    if out.len() != 16 {
+        return Err("default palette is not 16 colours".into());
+    }
+    for k in 0..64usize {
+        out.push(match BitFont::from_ansi_font_page(k) {
+            Ok(f) => font_id(&f),
+            Err(_) => 0,
+        });
+    }
+    for n in SAUCE_NAMES {
+        out.push(match BitFont::from_sauce_name(n) {
+            Ok(f) => font_id(&f),
+            Err(_) => 0,
+        });
+    }
+    for k in 0..4 {
+        out.push(sauce_rest(&sauce_variant(k, 1, 1)));
+    }
+    // record 0 as `build` stores it in an ice-mode document
+    let mut s = sauce_variant(0, 1, 1);
+    s.use_ice = true;
+    out.push(sauce_rest(&s));
+    // the character map of rotate_layer: a 256 x 1 layer holding every code becomes a 1 x 256 layer
+    let mut st = EditState::from_buffer(Buffer::new((256, 1)));
+    for c in 0..256u32 {
+        st.get_buffer_mut().layers[0].set_char((c as i32, 0), AttributedChar::new(char::from_u32(c).unwrap(), TextAttribute::new(7, 1)));
+    }
+    st.rotate_layer().map_err(|e| e.to_string())?;
+    for c in 0..256i32 {
+        out.push(st.get_buffer().layers[0].get_char((0, c)).ch as i64);
+    }
+    Ok(out)
+}
+
 pub fn run(kind: &str, args: &[&str]) -> Option<Obs> {
     match kind {
         "c08hist" => Some(hist(args)),
         "c08trace" => Some(trace(args)),
+        "c08xtrace" => Some(xtrace(args)),
         "c08flip" => Some(flip_probe()),
+        "c08flipf" => Some(flip_probe_sel(args)),
+        "c08probe" => Some(probe()),
         _ => None,
     }
 }
